@@ -116,6 +116,8 @@ def _to_be(w, st, fr, path, targs, args, dty):
 
 
 def _from_bytes(arr, order, bits):
+    if isinstance(arr, SymObj) and arr.ty[0] == "array" and arr.ty[2] is not None and arr.ty[2] <= 16:
+        arr = Agg(("array",), 0, [tm.sym("%s[%d]" % (arr.name, i), 8) for i in range(arr.ty[2])])
     if not isinstance(arr, Agg) or not all(isinstance(b, T) for b in arr.fields):
         return NOT_HANDLED
     bs = list(arr.fields)
@@ -731,3 +733,20 @@ def _to_vec(w, st, fr, path, targs, args, dty):
     if n is None:
         return NOT_HANDLED
     return SymArr("vec(%s)" % getattr(v, "name", "slice"), ("int", 8, False, False), n)
+
+
+@builtin("<core::slice::Iter<'a, T> as core::iter::Iterator>::position")
+def _slice_iter_position(w, st, fr, path, targs, args, dty):
+    r = args[0]
+    it = w.load(st, r.obj, r.proj) if isinstance(r, Ref) else r
+    if not (isinstance(it, Agg) and it.kind == ("sliceiter",)):
+        return NOT_HANDLED
+    base, i, n = it.fields
+    found = tm.fresh_sym("position.found", 1)
+    pos = tm.fresh_sym("position", 64)
+
+    def hit(s2):
+        # the result indexes the remaining part of the slice
+        w.assume(s2, tm.cmp("ult", pos, tm.binop("sub", n, i)), 1)
+        return some(pos)
+    return ForkValues([(found, 1, hit), (found, 0, NONE)])
